@@ -25,6 +25,7 @@ import (
 	"strconv"
 	"strings"
 	"sync"
+	"sync/atomic"
 	"testing"
 	"time"
 
@@ -57,6 +58,31 @@ nodes:
 
 // counter2: the same machine with another specification - it tags what it records
 var counterSpec2 = strings.Replace(strings.Replace(counterSpec, "name: counter", "name: counter2", 1), `concat([bs["?m"]])`, `concat(["2:" + bs["?m"]])`, 1)
+
+// ---------------------------------------------------------------- the hook
+//
+// The repository's hook variable (verif_on.go) is read by service and timer goroutines without synchronisation; goroutines
+// of a finished history may still be running when the next history begins.  So the variable is written ONCE, before any
+// goroutine exists, with a dispatcher that forwards to whatever the current harness has put into an atomic value.
+
+type hookFn func(point string, args ...interface{})
+
+var (
+	hookOnce    sync.Once
+	currentHook atomic.Value // hookFn
+)
+
+func setHook(f hookFn) {
+	hookOnce.Do(func() {
+		currentHook.Store(hookFn(nil))
+		verifHook = func(point string, args ...interface{}) {
+			if h, _ := currentHook.Load().(hookFn); h != nil {
+				h(point, args...)
+			}
+		}
+	})
+	currentHook.Store(f)
+}
 
 // ---------------------------------------------------------------- recorder
 
@@ -250,13 +276,13 @@ func replaySchedule(id int, sc *schedule, dir string, stepTimeout time.Duration)
 	}()
 	rec := &recorder{t0: time.Now()}
 	g := &gates{ops: map[int]*opCtl{}}
-	verifHook = func(point string, args ...interface{}) {
+	setHook(func(point string, args ...interface{}) {
 		switch point {
 		case "add-before-write", "rem-before-write", "process-before-write":
 			g.hook(point)
 		}
-	}
-	defer func() { verifHook = nil }()
+	})
+	defer setHook(nil)
 
 	ops := make([]svcOp, len(sc.Ops))
 	for i, o := range sc.Ops {
@@ -561,7 +587,7 @@ func routeHistory(id int, rng *rand.Rand, dir string) vO {
 	var mu sync.Mutex
 	processed := vT{}
 	last := time.Now()
-	verifHook = func(point string, args ...interface{}) {
+	setHook(func(point string, args ...interface{}) {
 		if point == "process-locked" {
 			mu.Lock()
 			if m, is := args[0].(map[string]interface{}); is {
@@ -572,8 +598,8 @@ func routeHistory(id int, rng *rand.Rand, dir string) vO {
 			last = time.Now()
 			mu.Unlock()
 		}
-	}
-	defer func() { verifHook = nil }()
+	})
+	defer setHook(nil)
 	seq := 0
 	mk := func(tos []string) []interface{} {
 		out := []interface{}{}
